@@ -47,19 +47,19 @@ type c03Spec struct {
 
 var c03Specs = []c03Spec{
 	{"ValidateDomainNameLabel", 1, 63, false, "*github.com/AdguardTeam/golibs/netutil.LabelError",
-		[]string{`(p0 == "")`, `(len(p0) > 63)`}},
+		[]string{`(len(p0) == 0)`, `(len(p0) > 63)`}},
 	{"ValidateHostnameLabel", 1, 63, false, "*github.com/AdguardTeam/golibs/netutil.LabelError",
-		[]string{`accepts(DomainLabel,p0)`, `IsValidHostOuterRune(p0[0])`, `(len(p0) == 1)`, `IsValidHostInnerRune(next(range(p0[1:(len(p0) - 1)]))#2)`, `IsValidHostOuterRune(p0[(len(p0) - 1)])`}},
+		[]string{`accepts(DomainLabel,p0)`, `IsValidHostOuterRune(p0[0])`, `IsValidHostInnerRune(`, `IsValidHostOuterRune(p0[(len(p0) - 1)])`}},
 	{"ValidateTLDLabel", 1, 63, false, "*github.com/AdguardTeam/golibs/netutil.LabelError",
 		[]string{`accepts(HostLabel,p0)`, `hasValidTLDChars(p0)`}},
 	{"ValidateServiceNameLabel", 2, 16, false, "*github.com/AdguardTeam/golibs/netutil.LabelError",
-		[]string{`(p0 == "")`, `(p0 == "_")`, `(p0[0] != 95)`, `(len(p0) > 16)`, `accepts(HostLabel,p0[1:])`}},
+		[]string{`(len(p0) == 0)`, `(p0 == "_")`, `(p0[0] == 95)`, `(len(p0) > 16)`, `accepts(HostLabel,p0[1:])`}},
 	{"ValidateDomainName", 1, 253, true, "*github.com/AdguardTeam/golibs/netutil.AddrError",
-		[]string{`isnil(idna.ToASCII(p0)#1)`, `(idna.ToASCII(p0)#0 == "")`, `(len(idna.ToASCII(p0)#0) > 253)`, `strings.Cut(`, `accepts(DomainLabel,phi0@L1)`, `accepts(TLD,phi0@L1)`}},
+		[]string{`isnil(idna.ToASCII(p0)#1)`, `(len(idna.ToASCII(p0)#0) == 0)`, `(len(idna.ToASCII(p0)#0) > 253)`, `strings.Cut(`, `accepts(DomainLabel,`, `accepts(TLD,`}},
 	{"ValidateHostname", 1, 253, true, "*github.com/AdguardTeam/golibs/netutil.AddrError",
-		[]string{`isnil(idna.ToASCII(p0)#1)`, `(idna.ToASCII(p0)#0 == "")`, `(len(idna.ToASCII(p0)#0) > 253)`, `strings.Cut(`, `accepts(HostLabel,phi0@L1)`, `accepts(TLD,phi0@L1)`}},
+		[]string{`isnil(idna.ToASCII(p0)#1)`, `(len(idna.ToASCII(p0)#0) == 0)`, `(len(idna.ToASCII(p0)#0) > 253)`, `strings.Cut(`, `accepts(HostLabel,`, `accepts(TLD,`}},
 	{"ValidateSRVDomainName", 1, 253, true, "*github.com/AdguardTeam/golibs/netutil.AddrError",
-		[]string{`isnil(idna.ToASCII(p0)#1)`, `(idna.ToASCII(p0)#0 == "")`, `(len(idna.ToASCII(p0)#0) > 253)`, `strings.Cut(`, `strings.HasPrefix(phi0@L1,"_")`, `ValidateServiceNameLabel(phi0@L1)`, `ValidateHostnameLabel(phi0@L1)`, `accepts(TLD,phi0@L1)`}},
+		[]string{`isnil(idna.ToASCII(p0)#1)`, `(len(idna.ToASCII(p0)#0) == 0)`, `(len(idna.ToASCII(p0)#0) > 253)`, `strings.Cut(`, `ValidateServiceNameLabel(`, `ValidateHostnameLabel(`, `accepts(TLD,`}},
 }
 
 var c03Family = map[string]string{
